@@ -49,6 +49,8 @@ MUTANTS = [
     ("m65", "models.py", "for i in range(self.n_vars)]", "for i in range(self.n_vars - 1)]", [P + "models.BinaryVariable.__init__"], True),
     ("m66", "models.py", "        return self.lower_bounds, self.upper_bounds\n", "        return self.upper_bounds, self.lower_bounds\n", [P + "models.ContinuousMultiVariable.get_bounds"], True),
     ("m67", "models.py", "        return [v.decode(value[idx]) for idx, v in enumerate(self._children)]\n", "        return [v.decode(value[0]) for idx, v in enumerate(self._children)]\n", [P + "models.ContinuousMultiVariable.decode"], True),
+    ("m68", "models.py", "ub = (2 - np.finfo(float).eps) * np.ones(self.n_vars)", "ub = (2 + np.finfo(float).eps) * np.ones(self.n_vars)", [P + "models.BinaryVariable.get_bounds"], True),
+    ("m69", "models.py", "        ub = (n_items - 1e-4) * np.ones(n_items)\n", "        ub = (n_items - 1e-4) * np.ones(n_items - 1)\n", [P + "models.PermutationVariable.get_bounds"], True),
     ("h62", "models.py", "            temp = x[counter:(counter + v.size())]\n", "            width = v.size()\n            temp = x[counter:counter + width]\n", [P + "models.Task.transform_solution"], False),
     ("h60", "helpers.py", "    pop_new = population.copy()\n    pop_new.sort(", "    sorted_population = population.copy()\n    pop_new = sorted_population\n    pop_new.sort(", [H + "sort_by_cost"], False),
 ]
